@@ -293,3 +293,17 @@ def run(F, R, tier):
             continue
         prints = [x for x in H.walk(H.body_of(g)) if x.get("k") == "call" and (x.get("callee") or "") in ("std::io::_print", "std::io::_eprint")]
         R.ob("no-panicking-print", nm, not prints, "%d print!/eprint! calls (panic when the descriptor fails)" % len(prints), F.loc(g))
+    # ---- a short or garbage pcap header is an error object: C19's rules on how the fixed-size structures are read ----------------
+    # `read_exact` turns a header that ends early into io::ErrorKind::UnexpectedEof, which pcap_open / pcap_stream hand to the
+    # script as an error object; a plain `read` (or a loop that stops at end of input and goes on with a partly filled,
+    # zero-padded buffer) makes a truncated header look like a valid one.
+    import importlib
+    from .lib import core as _core
+    try:
+        R19 = _core.Report("C19")
+        importlib.import_module("rules.c19").run(F, R19, tier)
+        for o in R19.obls:
+            if o.rule in ("fixed-size-reads-exact", "read-exact-propagated", "magic-test"):
+                R.ob("linked:C19:" + o.rule, o.key, o.ok, o.detail, o.loc, nontrivial=False)
+    except Exception as e:  # fail closed
+        R.ob("linked-check", "C19's header-reading rules could be evaluated", False, "%s: %s" % (type(e).__name__, e))
